@@ -1,8 +1,598 @@
 package main
 
 import (
+	"bytes"
+	"fmt"
+	"sort"
+	"strings"
+
+	"github.com/ozontech/seq-db/frac"
+	"github.com/ozontech/seq-db/frac/lids"
+	"github.com/ozontech/seq-db/seq"
+
 	"verif/harness/internal/casefile"
 	"verif/harness/internal/rng"
 )
 
-func runUnit(w *casefile.Writer, r *rng.R, tier string) {}
+// ---------------------------------------------------------------- rendering
+
+func nl(xs []uint32) string {
+	if len(xs) == 0 {
+		return "[]"
+	}
+	parts := make([]string, len(xs))
+	for i, x := range xs {
+		parts[i] = fmt.Sprint(x)
+	}
+	return "[" + strings.Join(parts, ";") + "]"
+}
+
+func nll(xs [][]uint32) string {
+	parts := make([]string, len(xs))
+	for i, x := range xs {
+		parts[i] = nl(x)
+	}
+	return "[" + strings.Join(parts, ";") + "]"
+}
+
+func nlll(xs [][][]uint32) string {
+	parts := make([]string, len(xs))
+	for i, x := range xs {
+		parts[i] = nll(x)
+	}
+	return "[" + strings.Join(parts, ";") + "]"
+}
+
+func zl(xs []int64) string {
+	parts := make([]string, len(xs))
+	for i, x := range xs {
+		parts[i] = fmt.Sprintf("(%d)%%Z", x)
+	}
+	return "[" + strings.Join(parts, ";") + "]"
+}
+
+func chunksCoq(cs [][]uint32, isLast bool) string {
+	return fmt.Sprintf("(mkChunks %s %s)", nll(cs), casefile.Bool(isLast))
+}
+
+func blockCoq(b *lids.Block) string {
+	return fmt.Sprintf("(mkBlock %d %d %s %s)", b.MinTID, b.MaxTID, casefile.Bool(b.IsContinued),
+		chunksCoq(lids.VerifC03Chunks(&b.Chunks), b.Chunks.IsLastLID))
+}
+
+func resList(out []uint32, hung bool, panicked any) string {
+	switch {
+	case panicked != nil:
+		return "Panic"
+	case hung:
+		return "OutOfFuel"
+	}
+	return "(Ok " + nl(out) + ")"
+}
+
+// ---------------------------------------------------------------- Chunks.Pack / unpack
+
+const maxLID = 1<<32 - 2 // MaxUint32 is the end marker
+
+func genChunks(r *rng.R) ([][]uint32, bool) {
+	n := r.Range(0, 6)
+	cs := make([][]uint32, n)
+	for i := range cs {
+		k := r.Range(0, 5)
+		if r.Chance(1, 6) {
+			k = 0 // empty chunk in the middle (a token without postings)
+		}
+		var cur uint32
+		switch r.Intn(4) {
+		case 0:
+			cur = uint32(r.Intn(4))
+		case 1:
+			cur = maxLID - uint32(r.Intn(12))
+		default:
+			cur = uint32(r.U64() % maxLID)
+		}
+		for j := 0; j < k; j++ {
+			cs[i] = append(cs[i], cur)
+			step := uint32(1 + r.Intn(3))
+			if r.Chance(1, 5) {
+				step = uint32(r.U64() % (1 << 31))
+			}
+			if r.Chance(1, 8) { // not increasing (the codec itself does not need order)
+				cur = uint32(r.U64() % maxLID)
+			} else if cur > maxLID-step {
+				break
+			} else {
+				cur += step
+			}
+		}
+	}
+	isLast := r.Bool()
+	if !isLast { // shape the generator guarantees: an open block ends inside a non-empty chunk
+		if n == 0 || len(cs[n-1]) == 0 {
+			isLast = true
+		}
+	}
+	return cs, isLast
+}
+
+func unitChunks(w *casefile.Writer, r *rng.R, n int) {
+	for i := 0; i < n; i++ {
+		cs, isLast := genChunks(r)
+		c := lids.VerifC03NewChunks(cs, isLast)
+		vals, back, err := lids.VerifC03PackUnpack(c)
+		backCoq := "None"
+		var impl any = "error"
+		if err == nil && back != nil {
+			bl := lids.VerifC03Chunks(back)
+			backCoq = "(Some " + chunksCoq(bl, back.IsLastLID) + ")"
+			impl = map[string]any{"chunks": bl, "isLast": back.IsLastLID}
+		}
+		term := fmt.Sprintf("CChunks %s %s %s %s", nll(cs), casefile.Bool(isLast), zl(vals), backCoq)
+		nt := len(cs) >= 2
+		w.Add(term, "chunks/codec", nt, map[string]any{"chunks": cs, "isLast": isLast}, impl)
+		if !isLast {
+			w.Count("chunks:open-block")
+		}
+	}
+}
+
+// ---------------------------------------------------------------- LID blocks: generator, table, iterators
+
+type corpus struct {
+	cap    int
+	fields [][][]uint32 // new LIDs, strictly increasing, per field per token (dictionary order)
+	maxLID uint32
+	shape  string
+}
+
+// posting list of n strictly increasing LIDs in [1, m]
+func genPostings(r *rng.R, n int, m uint32, edge bool) []uint32 {
+	out := make([]uint32, 0, n)
+	if edge { // values at the top of the uint32 range (the end marker is 2^32-1)
+		cur := uint32(maxLID) - uint32(n) - uint32(r.Intn(5))
+		for i := 0; i < n; i++ {
+			out = append(out, cur)
+			cur++
+		}
+		return out
+	}
+	seen := map[uint32]bool{}
+	for len(out) < n {
+		v := 1 + uint32(r.U64()%uint64(m))
+		if !seen[v] {
+			seen[v] = true
+			out = append(out, v)
+		}
+	}
+	sort.Slice(out, func(i, j int) bool { return out[i] < out[j] })
+	return out
+}
+
+func genCorpus(r *rng.R) corpus {
+	c := corpus{cap: rng.Pick(r, []int{1, 2, 3, 4, 5, 8})}
+	nf := r.Range(1, 3)
+	c.maxLID = uint32(r.Range(c.cap*3+2, c.cap*6+8))
+	shape := r.Intn(5)
+	for f := 0; f < nf; f++ {
+		nt := r.Range(1, 5)
+		var toks [][]uint32
+		for t := 0; t < nt; t++ {
+			var n int
+			switch shape {
+			case 0: // multiples of the capacity: tokens end exactly at block ends
+				n = c.cap * r.Range(1, 3)
+			case 1: // one off
+				n = c.cap*r.Range(1, 3) + r.Range(-1, 1)
+			case 2: // many tiny tokens
+				n = r.Range(1, 2)
+			default:
+				n = r.Range(1, c.cap*3+1)
+			}
+			if n < 1 {
+				n = 1
+			}
+			if uint32(n) > c.maxLID {
+				n = int(c.maxLID)
+			}
+			toks = append(toks, genPostings(r, n, c.maxLID, shape == 4 && r.Chance(1, 3)))
+		}
+		c.fields = append(c.fields, toks)
+	}
+	c.shape = []string{"exact-multiples", "one-off", "tiny-tokens", "random", "random+uint32-edge"}[shape]
+	return c
+}
+
+// hand over the corpus to the real generator: field names/token values in dictionary order, inserted in
+// shuffled order (TIDs of the active fraction are arrival ordered). Old LIDs are 1..K (K = number of
+// distinct new LIDs), oldToNew is monotone (rank) or a random permutation.
+func (c corpus) toReal(r *rng.R, permute bool) (map[string][]frac.VerifC03Token, []uint32, [][][]uint32) {
+	seen := map[uint32]bool{}
+	var distinct []uint32
+	for _, f := range c.fields {
+		for _, t := range f {
+			for _, l := range t {
+				if !seen[l] {
+					seen[l] = true
+					distinct = append(distinct, l)
+				}
+			}
+		}
+	}
+	sort.Slice(distinct, func(i, j int) bool { return distinct[i] < distinct[j] })
+	k := len(distinct)
+	olds := make([]uint32, k)
+	for i := range olds {
+		olds[i] = uint32(i + 1)
+	}
+	if permute {
+		rng.Shuffle(r, olds)
+	}
+	o2n := make([]uint32, k+1)
+	n2o := map[uint32]uint32{}
+	for i, nw := range distinct {
+		o2n[olds[i]] = nw
+		n2o[nw] = olds[i]
+	}
+	m := map[string][]frac.VerifC03Token{}
+	old := make([][][]uint32, len(c.fields))
+	for fi, toks := range c.fields {
+		name := fmt.Sprintf("f%02d", fi)
+		list := make([]frac.VerifC03Token, len(toks))
+		old[fi] = make([][]uint32, len(toks))
+		for ti, p := range toks {
+			ol := make([]uint32, len(p))
+			for i, l := range p {
+				ol[i] = n2o[l]
+			}
+			old[fi][ti] = ol
+			list[ti] = frac.VerifC03Token{Val: []byte(fmt.Sprintf("v%03d", ti)), LIDs: ol}
+		}
+		rng.Shuffle(r, list)
+		m[name] = list
+	}
+	return m, o2n, old
+}
+
+func genBlocksSafe(fields map[string][]frac.VerifC03Token, o2n []uint32, cap int) (bs []*lids.Block, err error, panicked any) {
+	defer func() {
+		if p := recover(); p != nil {
+			panicked = p
+		}
+	}()
+	bs, err = frac.VerifC03LIDBlocks(fields, o2n, cap)
+	return
+}
+
+func unitGen(w *casefile.Writer, r *rng.R, n int) {
+	for i := 0; i < n; i++ {
+		c := genCorpus(r)
+		real, o2n, old := c.toReal(r, true)
+		bs, err, p := genBlocksSafe(real, o2n, c.cap)
+		impl := "Panic"
+		if p == nil && err == nil {
+			parts := make([]string, len(bs))
+			for j, b := range bs {
+				parts[j] = blockCoq(b)
+			}
+			impl = "(Ok [" + strings.Join(parts, ";") + "])"
+		}
+		term := fmt.Sprintf("CGen %d %s %s %s", c.cap, nl(o2n), nlll(old), impl)
+		w.Add(term, "lids/generator", len(bs) >= 2, map[string]any{"cap": c.cap, "oldToNew": o2n, "fields": old, "shape": c.shape},
+			map[string]any{"blocks": len(bs), "panic": fmt.Sprint(p), "err": fmt.Sprint(err)})
+		w.Count("gen-shape:" + c.shape)
+	}
+}
+
+func unitIter(w *casefile.Writer, r *rng.R, n int) {
+	for i := 0; i < n; i++ {
+		c := genCorpus(r)
+		real, o2n, _ := c.toReal(r, false)
+		bs, err, p := genBlocksSafe(real, o2n, c.cap)
+		if p != nil || err != nil {
+			w.Violate("lids-generator-failed", fmt.Sprintf("getLIDsBlockGenerator failed: panic=%v err=%v", p, err),
+				map[string]any{"cap": c.cap, "fields": c.fields})
+			continue
+		}
+		// real Table (as the sealing writer builds it), real Pack + unpack of every block
+		t := lids.NewTable(7, nil, nil, nil)
+		var backs []*lids.Chunks
+		bad := false
+		for _, b := range bs {
+			t.Add(b)
+			_, back, err := lids.VerifC03PackUnpack(&b.Chunks)
+			if err != nil {
+				w.Violate("lids-unpack-error", "Chunks.unpack failed on Chunks.Pack output: "+err.Error(),
+					map[string]any{"cap": c.cap, "fields": c.fields})
+				bad = true
+				break
+			}
+			backs = append(backs, back)
+		}
+		if bad {
+			continue
+		}
+		// queries: every tid, both directions, borders around the stored values
+		var qs []string
+		var qin []any
+		tid := uint32(0)
+		cont := false
+		for _, bl := range bs {
+			if bl.IsContinued {
+				cont = true
+			}
+		}
+		for _, f := range c.fields {
+			for _, post := range f {
+				tid++
+				for k := 0; k < 4; k++ {
+					lo, hi := uint32(0), uint32(1<<32-1)
+					pick := func() uint32 {
+						v := post[r.Intn(len(post))]
+						switch r.Intn(4) {
+						case 0:
+							if v > 0 {
+								v--
+							}
+						case 1:
+							v++
+						}
+						return v
+					}
+					switch k {
+					case 0:
+					case 1:
+						lo, hi = pick(), pick()
+						if lo > hi && r.Chance(3, 4) {
+							lo, hi = hi, lo
+						}
+					case 2:
+						lo = pick()
+					case 3:
+						hi = pick()
+					}
+					asc := r.Bool()
+					out, hung, pan := lids.VerifC03Iterate(t, backs, tid, lo, hi, asc, 4*int(c.maxLID)+1000)
+					qs = append(qs, fmt.Sprintf("mkQ %d %d %d %s %s", tid, lo, hi, casefile.Bool(asc), resList(out, hung, pan)))
+					qin = append(qin, map[string]any{"tid": tid, "lo": lo, "hi": hi, "asc": asc, "got": out, "hung": hung, "panic": fmt.Sprint(pan)})
+				}
+			}
+		}
+		term := fmt.Sprintf("CIter %d %s [%s]", c.cap, nlll(c.fields), strings.Join(qs, ";"))
+		w.Add(term, "lids/roundtrip", cont, map[string]any{"cap": c.cap, "fields": c.fields, "shape": c.shape}, qin)
+		w.Count("iter-shape:" + c.shape)
+		if cont {
+			w.Count("iter:token-spans-blocks")
+		}
+		w.Evals(len(qs))
+	}
+}
+
+// ---------------------------------------------------------------- token block generator
+
+type tokField struct {
+	name string
+	toks [][]byte
+}
+
+func mkTok(prefix string, idx, length int) []byte {
+	s := fmt.Sprintf("%s%06d", prefix, idx)
+	if len(s) >= length {
+		return []byte(s[len(s)-length:])
+	}
+	return append([]byte(s), bytes.Repeat([]byte{'x'}, length-len(s))...)
+}
+
+func genTokFields(r *rng.R) ([]tokField, string) {
+	const blk = 16384
+	shape := r.Intn(7)
+	name := []string{"one-huge-token", "three-9000", "exact-threshold", "few-big", "many-small", "mixed", "random"}[shape]
+	nf := r.Range(1, 3)
+	var out []tokField
+	for f := 0; f < nf; f++ {
+		tf := tokField{name: fmt.Sprintf("f%02d", f)}
+		sh := shape
+		if f > 0 && r.Bool() {
+			sh = 6
+		}
+		switch sh {
+		case 0: // fewer tokens than blocks: one token of 20000 bytes
+			tf.toks = [][]byte{mkTok("h", 0, 20000+r.Intn(3)*16384)}
+		case 1:
+			for i := 0; i < 3; i++ {
+				tf.toks = append(tf.toks, mkTok("t", i, 9000))
+			}
+		case 2: // total size exactly k*16384 (+-1)
+			k := r.Range(1, 3)
+			n := rng.Pick(r, []int{1, 2, 4, 16, 64, 100})
+			total := k*blk + r.Range(-1, 1)
+			each := total / n
+			if each < 8 {
+				each = 8
+			}
+			for i := 0; i < n; i++ {
+				l := each
+				if i == n-1 {
+					l = total - each*(n-1)
+				}
+				if l < 7 {
+					l = 7
+				}
+				tf.toks = append(tf.toks, mkTok("e", i, l))
+			}
+		case 3: // tokens larger than a block, fewer than blocks
+			n := r.Range(1, 4)
+			for i := 0; i < n; i++ {
+				tf.toks = append(tf.toks, mkTok("b", i, r.Range(9000, 40000)))
+			}
+		case 4:
+			n := r.Range(1, 3000)
+			for i := 0; i < n; i++ {
+				tf.toks = append(tf.toks, mkTok("s", i, r.Range(7, 30)))
+			}
+		case 5:
+			n := r.Range(1, 30)
+			for i := 0; i < n; i++ {
+				l := r.Range(7, 40)
+				if r.Chance(1, 5) {
+					l = r.Range(5000, 30000)
+				}
+				tf.toks = append(tf.toks, mkTok("m", i, l))
+			}
+		default:
+			n := r.Range(1, 200)
+			for i := 0; i < n; i++ {
+				tf.toks = append(tf.toks, mkTok("r", i, r.Range(7, 600)))
+			}
+		}
+		out = append(out, tf)
+	}
+	return out, name
+}
+
+func tokBlocksSafe(fields map[string][]frac.VerifC03Token, limit int) (bs []frac.VerifC03TokenBlock, stopped bool, err error, panicked any) {
+	defer func() {
+		if p := recover(); p != nil {
+			panicked = p
+		}
+	}()
+	bs, stopped, err = frac.VerifC03TokenBlocks(fields, limit)
+	return
+}
+
+func unitTok(w *casefile.Writer, r *rng.R, n int) {
+	for i := 0; i < n; i++ {
+		fields, shape := genTokFields(r)
+		real := map[string][]frac.VerifC03Token{}
+		type key struct{ f, v string }
+		var all []key
+		var fcoq []string
+		var desc []any
+		total := 0
+		for _, f := range fields {
+			size := 0
+			list := make([]frac.VerifC03Token, len(f.toks))
+			for j, t := range f.toks {
+				list[j] = frac.VerifC03Token{Val: t, LIDs: []uint32{1}}
+				size += len(t)
+				all = append(all, key{f.name, string(t)})
+			}
+			rng.Shuffle(r, list)
+			real[f.name] = list
+			fcoq = append(fcoq, fmt.Sprintf("(%d,%d)", size, len(f.toks)))
+			desc = append(desc, map[string]any{"field": f.name, "size": size, "tokens": len(f.toks)})
+			total += len(f.toks)
+		}
+		sort.Slice(all, func(a, b int) bool {
+			if all[a].f != all[b].f {
+				return all[a].f < all[b].f
+			}
+			return all[a].v < all[b].v
+		})
+		rank := map[key]int{}
+		for j, k := range all {
+			rank[k] = j
+		}
+		bs, stopped, err, p := tokBlocksSafe(real, 4*total+16)
+		impl := ""
+		var ranks []string
+		switch {
+		case p != nil || err != nil:
+			impl = "Panic"
+		case stopped:
+			impl = "OutOfFuel"
+		default:
+			parts := make([]string, len(bs))
+			for j, b := range bs {
+				parts[j] = fmt.Sprintf("(%d,%d,%s)", b.StartTID, len(b.Tokens), casefile.Bool(b.IsStartOfField))
+				rk := make([]uint32, len(b.Tokens))
+				for k, t := range b.Tokens {
+					rk[k] = uint32(rank[key{b.Field, string(t)}])
+				}
+				ranks = append(ranks, nl(rk))
+			}
+			impl = "(Ok [" + strings.Join(parts, ";") + "])"
+		}
+		term := fmt.Sprintf("CTok [%s] %s [%s]", strings.Join(fcoq, ";"), impl, strings.Join(ranks, ";"))
+		w.Add(term, "tokens/generator", len(bs) > len(fields), map[string]any{"shape": shape, "fields": desc},
+			map[string]any{"blocks": len(bs), "stopped": stopped, "panic": fmt.Sprint(p), "err": fmt.Sprint(err)})
+		w.Count("tok-shape:" + shape)
+	}
+}
+
+// ---------------------------------------------------------------- ID block generator
+
+func unitIDs(w *casefile.Writer, r *rng.R, n int) {
+	for i := 0; i < n; i++ {
+		size := r.Range(1, 6)
+		var cnt int
+		switch r.Intn(3) {
+		case 0:
+			cnt = size * r.Range(0, 4)
+		case 1:
+			cnt = size*r.Range(1, 4) + r.Range(-1, 1)
+		default:
+			cnt = r.Range(0, 25)
+		}
+		ids := make([]seq.ID, 0, cnt)
+		mid, rid := uint64(1000+cnt*3), uint64(50)
+		for j := 0; j < cnt; j++ {
+			ids = append(ids, seq.ID{MID: seq.MID(mid), RID: seq.RID(rid)})
+			if r.Chance(1, 3) && rid > 0 {
+				rid -= uint64(r.Range(1, 3))
+				if rid > 1<<62 {
+					rid = 0
+					mid--
+				}
+			} else {
+				mid -= uint64(r.Range(1, 3))
+				rid = uint64(r.Intn(100))
+			}
+		}
+		blocks, mins, err, p := idBlocksSafe(ids, size)
+		idc := func(xs []seq.ID) string {
+			parts := make([]string, len(xs))
+			for k, x := range xs {
+				parts[k] = fmt.Sprintf("(%d,%d)", uint64(x.MID), uint64(x.RID))
+			}
+			return "[" + strings.Join(parts, ";") + "]"
+		}
+		impl := "None"
+		if err == nil && p == nil {
+			parts := make([]string, len(blocks))
+			for k, b := range blocks {
+				parts[k] = idc(b)
+			}
+			impl = "(Some [" + strings.Join(parts, ";") + "])"
+		}
+		term := fmt.Sprintf("CIds %d %s %s %s", size, idc(ids), impl, idc(mins))
+		w.Add(term, "ids/generator", len(blocks) >= 2, map[string]any{"size": size, "ids": len(ids), "first": fmt.Sprint(ids)},
+			map[string]any{"blocks": len(blocks), "panic": fmt.Sprint(p), "err": fmt.Sprint(err)})
+		if cnt > 0 && cnt%size == 0 {
+			w.Count("ids:exact-multiple")
+		}
+	}
+}
+
+func idBlocksSafe(ids []seq.ID, size int) (blocks [][]seq.ID, mins []seq.ID, err error, panicked any) {
+	defer func() {
+		if p := recover(); p != nil {
+			panicked = p
+		}
+	}()
+	blocks, mins, err = frac.VerifC03IDsBlocks(ids, size)
+	return
+}
+
+// ----------------------------------------------------------------
+
+func runUnit(w *casefile.Writer, r *rng.R, tier string) {
+	k := 1
+	if tier == "thorough" {
+		k = 8
+	}
+	unitChunks(w, r.Fork(), 1500*k)
+	unitGen(w, r.Fork(), 400*k)
+	unitIter(w, r.Fork(), 500*k)
+	unitTok(w, r.Fork(), 150*k)
+	unitIDs(w, r.Fork(), 300*k)
+}
